@@ -445,10 +445,11 @@ type c20Entry struct {
 }
 
 type c20SecCfg struct {
-	hasCluster bool
-	cluster    any // JSON value of clusterStrategy; list sections: the cluster-wide layer {"applications": [...]}
-	hasEntries bool
-	entries    []c20Entry
+	hasCluster  bool
+	cluster     any // JSON value of clusterStrategy; list sections: the cluster-wide layer {"applications": [...]}
+	hasEntries  bool
+	nullEntries bool // the entries key is written as null (only without entries)
+	entries     []c20Entry
 }
 
 func (s *c20Section) text(cfg *c20SecCfg) string {
@@ -478,6 +479,9 @@ func (s *c20Section) text(cfg *c20SecCfg) string {
 				arr = []any{}
 			}
 			top["nodeConfigs"] = arr
+			if cfg.nullEntries && len(arr) == 0 {
+				top["nodeConfigs"] = nil
+			}
 		}
 		return c20Marshal(top)
 	}
@@ -489,6 +493,9 @@ func (s *c20Section) text(cfg *c20SecCfg) string {
 			arr = []any{}
 		}
 		top["nodeStrategies"] = arr
+		if cfg.nullEntries && len(arr) == 0 {
+			top["nodeStrategies"] = nil
+		}
 	}
 	return c20Marshal(top)
 }
@@ -498,7 +505,7 @@ func (s *c20Section) layerLeaves(layer any) c20Leaves {
 	out := c20Leaves{}
 	if s.list {
 		m, _ := layer.(map[string]any)
-		if arr, ok := m["applications"].([]any); ok && len(arr) > 0 {
+		if arr, ok := m["applications"].([]any); ok { // an explicit [] sets the list: no applications
 			elems := make([]c20Leaves, len(arr))
 			for i, e := range arr {
 				elems[i] = c20Leaves{}
@@ -882,6 +889,168 @@ func (s *c20Section) genCfg(t *rapid.T, full bool, hot []int, hints []map[string
 	return cfg
 }
 
+// ---------------------------------------------------------------- targeted mutation: absent vs [] / {} vs null
+
+func c20Clone(v any) any {
+	switch x := v.(type) {
+	case map[string]any:
+		m := make(map[string]any, len(x))
+		for k, e := range x {
+			m[k] = c20Clone(e)
+		}
+		return m
+	case []any:
+		a := make([]any, len(x))
+		for i, e := range x {
+			a[i] = c20Clone(e)
+		}
+		return a
+	}
+	return v
+}
+
+func c20CloneCfg(cfg *c20SecCfg) *c20SecCfg {
+	out := &c20SecCfg{hasCluster: cfg.hasCluster, cluster: c20Clone(cfg.cluster), hasEntries: cfg.hasEntries, nullEntries: cfg.nullEntries}
+	for _, e := range cfg.entries {
+		l, _ := c20Clone(e.layer).(map[string]any)
+		out.entries = append(out.entries, c20Entry{name: e.name, hasSel: e.hasSel, sel: c20Clone(e.sel), layer: l})
+	}
+	return out
+}
+
+// state of a list/map-valued key inside a layer: 0 absent (its parent object exists), 1 empty ([] or {}), 2 null,
+// -1 anything else (non-empty value, or the parent object is missing)
+func c20EmptyState(layer map[string]any, segs []string) int {
+	m := layer
+	for _, sg := range segs[:len(segs)-1] {
+		nx, ok := m[sg].(map[string]any)
+		if !ok {
+			return -1
+		}
+		m = nx
+	}
+	v, present := m[segs[len(segs)-1]]
+	switch x := v.(type) {
+	case nil:
+		if present {
+			return 2
+		}
+		return 0
+	case []any:
+		if len(x) == 0 {
+			return 1
+		}
+	case map[string]any:
+		if len(x) == 0 {
+			return 1
+		}
+	}
+	return -1
+}
+
+// toggle returns a copy of prev that differs ONLY in how "nothing" is written for some list/map-valued keys: the key
+// absent, an explicit empty list/map, or null - in the cluster level, in node entries, and for the entries key itself.
+// ok=false when prev offers no such key.
+func (s *c20Section) toggle(t *rapid.T, prev *c20SecCfg) (cfg *c20SecCfg, where []string, ok bool) {
+	cfg = c20CloneCfg(prev)
+	type site struct {
+		name  string
+		layer map[string]any
+		segs  []string
+		empty func() any
+		state int
+	}
+	var sites []site
+	addLayer := func(name string, layer map[string]any) {
+		if s.list {
+			sites = append(sites, site{name: name, layer: layer, segs: []string{"applications"}, empty: func() any { return []any{} }})
+			return
+		}
+		for _, sl := range s.slots {
+			switch sl.sch.kind {
+			case c20KSlice:
+				sites = append(sites, site{name: name, layer: layer, segs: sl.segs, empty: func() any { return []any{} }})
+			case c20KMapBool:
+				sites = append(sites, site{name: name, layer: layer, segs: sl.segs, empty: func() any { return map[string]any{} }})
+			}
+		}
+	}
+	if s.list && !cfg.hasCluster {
+		cfg.hasCluster, cfg.cluster = true, map[string]any{} // the cluster level of a list section is the top-level object itself
+	}
+	if cl, isMap := cfg.cluster.(map[string]any); cfg.hasCluster && isMap {
+		addLayer("cluster", cl)
+	}
+	for i := range cfg.entries {
+		addLayer(fmt.Sprintf("entry%d", i), cfg.entries[i].layer)
+	}
+	var cand []site
+	for _, st := range sites {
+		if st.state = c20EmptyState(st.layer, st.segs); st.state >= 0 {
+			cand = append(cand, st)
+		}
+	}
+	entriesKey := len(cfg.entries) == 0
+	if len(cand) == 0 && !entriesKey {
+		return nil, nil, false
+	}
+	// either 1-2 chosen keys, or every such key at once (each to a drawn state, possibly the one it has)
+	all := rapid.Bool().Draw(t, "toggleAll")
+	n := len(cand) + 1
+	if !all {
+		n = rapid.IntRange(1, 2).Draw(t, "toggles")
+	}
+	for k := 0; k < n; k++ {
+		pick, minStep := k, 0
+		if !all {
+			pick, minStep = rapid.IntRange(0, len(cand)).Draw(t, "toggleSite"), 1 // len(cand) = the entries key
+		}
+		if pick == len(cand) && !entriesKey {
+			if all {
+				continue
+			}
+			pick = 0
+		}
+		step := rapid.IntRange(minStep, 2).Draw(t, "toggleTo")
+		if step == 0 {
+			continue
+		}
+		if pick == len(cand) {
+			cur := 0
+			if cfg.hasEntries {
+				cur = 1
+				if cfg.nullEntries {
+					cur = 2
+				}
+			}
+			next := (cur + step) % 3
+			cfg.hasEntries, cfg.nullEntries = next != 0, next == 2
+			where = append(where, "entries-key")
+			continue
+		}
+		st := cand[pick]
+		next := (c20EmptyState(st.layer, st.segs) + step) % 3
+		switch next {
+		case 0:
+			m := st.layer
+			for _, sg := range st.segs[:len(st.segs)-1] {
+				m = m[sg].(map[string]any)
+			}
+			delete(m, st.segs[len(st.segs)-1])
+		case 1:
+			c20Put(st.layer, st.segs, st.empty())
+		default:
+			c20Put(st.layer, st.segs, nil)
+		}
+		loc := "entry"
+		if st.name == "cluster" {
+			loc = "cluster"
+		}
+		where = append(where, loc)
+	}
+	return cfg, where, true
+}
+
 // ---------------------------------------------------------------- malformed section texts
 
 // c20Malformed returns a text json.Unmarshal into the section's configuration type must reject (syntax error or a
@@ -1019,14 +1188,14 @@ type c20Exp struct {
 }
 
 type c20NodeView struct {
-	// list sections: the first matching entry mentions the list explicitly as [] or null. Whether that "sets" the
-	// list (to empty) or not is not decided by the statement; both readings are tolerated.
-	explicitEmpty bool
-	exp           map[string]c20Exp
-	matching      []int // indexes of entries whose (valid) selector matches, in list order
-	invalid       []int
-	entryLeaf     []c20Leaves
-	cluster       c20Leaves
+	// list sections: the first matching entry writes the list explicitly as null. Go decodes that like an absent key
+	// (not set: cluster list), but "set to nothing" is a defensible reading too; both are tolerated.
+	explicitNull bool
+	exp          map[string]c20Exp
+	matching     []int // indexes of entries whose (valid) selector matches, in list order
+	invalid      []int
+	entryLeaf    []c20Leaves
+	cluster      c20Leaves
 }
 
 func (s *c20Section) expect(cfg *c20SecCfg, labels map[string]string) *c20NodeView {
@@ -1068,9 +1237,8 @@ func (s *c20Section) expect(cfg *c20SecCfg, labels map[string]string) *c20NodeVi
 	if len(v.matching) > 0 { // the FIRST matching entry, and only that one
 		first := cfg.entries[v.matching[0]]
 		lay(v.entryLeaf[v.matching[0]], "entry")
-		if x, mentioned := first.layer["applications"]; s.list && mentioned {
-			arr, _ := x.([]any)
-			v.explicitEmpty = len(arr) == 0
+		if x, mentioned := first.layer["applications"]; s.list && mentioned && x == nil {
+			v.explicitNull = true
 		}
 	}
 	return v
@@ -1093,6 +1261,10 @@ func c20Diff(exp map[string]c20Exp, act c20Leaves) (bad []string, inherited bool
 		e, hasE := exp[p]
 		a, hasA := act[p]
 		switch {
+		case hasE && e.val.kind == c20KSlice && len(e.val.v.([]c20Leaves)) == 0: // set to the empty list
+			if hasA {
+				bad = append(bad, p)
+			}
 		case hasE != hasA:
 			bad = append(bad, p)
 		case e.val.kind == c20KSlice:
@@ -1311,23 +1483,41 @@ func c20Run(t *testing.T, focusID string) {
 			var summary []string
 			if kind != "startup-no-cm" {
 				data = map[string]string{}
+				// the focused section's mode is drawn first: a "toggle" version leaves the other sections textually
+				// unchanged (most of the time), so that the two ConfigMap versions differ in nothing else
+				focusModes := []string{"absent", "valid", "valid", "valid", "valid", "valid", "valid", "malformed", "malformed", "empty", "same"}
+				if old := state[focus.id]; old.present && !old.malformed {
+					focusModes = append(focusModes, "malformed", "malformed", "toggle", "toggle", "toggle", "toggle")
+				}
+				focusMode := rapid.SampledFrom(focusModes).Draw(t, "mode_"+focus.id)
+				freezeOthers := focusMode == "toggle" && rapid.IntRange(0, 9).Draw(t, "freezeOthers") < 8
 				for _, s := range secs {
 					full := s == focus
 					old := state[s.id]
-					var modes []string
-					if full {
-						modes = []string{"absent", "valid", "valid", "valid", "valid", "valid", "valid", "malformed", "malformed", "empty", "same"}
-					} else {
-						modes = []string{"absent", "absent", "valid", "valid", "malformed", "same"}
+					mode := focusMode
+					if !full {
+						mode = "same"
+						if !freezeOthers {
+							mode = rapid.SampledFrom([]string{"absent", "absent", "valid", "valid", "malformed", "same"}).Draw(t, "mode_"+s.id)
+						}
 					}
-					if full && old.present && !old.malformed {
-						modes = append(modes, "malformed", "malformed")
-					}
-					mode := rapid.SampledFrom(modes).Draw(t, "mode_"+s.id)
 					if mode == "same" && !old.present {
 						mode = "absent"
 					}
 					st := &c20SecState{mode: mode}
+					if mode == "toggle" { // the previous version, rewritten only in absent / [] / {} / null
+						if cfg, where, ok := s.toggle(t, old.cfg); ok {
+							st.present, st.cfg = true, cfg
+							st.text = s.text(cfg)
+							for _, w := range where {
+								c.Class("toggle-absent-empty-null:" + w)
+							}
+							c.ClassIf(st.text != old.text, "toggle-absent-empty-null")
+							c.ClassIf(st.text != old.text && freezeOthers, "toggle-absent-empty-null:nothing-else-changes")
+						} else {
+							mode, st.mode = "valid", "valid"
+						}
+					}
 					switch mode {
 					case "absent":
 					case "same":
@@ -1435,9 +1625,9 @@ func c20Run(t *testing.T, focusID string) {
 				default:
 					view := focus.expect(st.cfg, nodeLabels[i])
 					bad, inherited := c20Diff(view.exp, act)
-					if len(bad) > 0 && view.explicitEmpty && len(act) == 0 {
+					if len(bad) > 0 && view.explicitNull && len(act) == 0 {
 						bad = nil
-						c.Class("explicit-empty-list-in-entry(read as set-to-empty, tolerated)")
+						c.Class("explicit-null-list-in-entry(read as set-to-empty, tolerated)")
 					}
 					for _, p := range bad {
 						e, hasE := view.exp[p]
@@ -1486,10 +1676,13 @@ func c20Run(t *testing.T, focusID string) {
 						if focus.list {
 							differ = !c20LeavesEq(first, second)
 						}
-						for p := range view.cluster {
+						for p, cv := range view.cluster {
 							_, a := first[p]
 							_, b := second[p]
-							if a || b || focus.list {
+							if focus.list {
+								a, b = len(cv.v.([]c20Leaves)) > 0, false
+							}
+							if a || b {
 								clusterTouches = true
 							}
 						}
